@@ -66,6 +66,13 @@ func c05Operands(thorough bool) []c05Operand {
 		c05Operand{Name: "printf", Lit: func(string) Expr { return V("printf") }, NoVar: true},
 	)
 	ops = append(ops, strOp("Infinity"), strOp("1e3")) // numeric strings that do not start with a digit or sign, or carry an exponent
+	// doubles no numeral denotes: they arrive through num() (or through a string that coerces to them); section 3.5 rule 5 fixes
+	// their comparisons (NaN is neither smaller nor greater than anything), IEEE arithmetic the rest
+	for _, t := range []string{"NaN", "Inf", "-Inf"} {
+		t := t
+		ops = append(ops, c05Operand{Name: "num(" + t + ")", Lit: func(string) Expr { return CallE(V("num"), S(t)) }})
+	}
+	ops = append(ops, strOp("NaN"), strOp("-Inf"))
 	if thorough {
 		for _, t := range []string{"4", "-3", "10", "9", "0.25", "-0.75", "5.7", "3.2", "100", "255", "1000", "4294967296", "9007199254740992", "123456789012345680000", "0.1", "0.000000000000000000001"} {
 			ops = append(ops, numOp(t))
